@@ -351,6 +351,15 @@ func runCheck(id, tier string) int {
 		return 2
 	}
 	runs := def.Runs(tier)
+	if want := os.Getenv("VF_SCENARIO"); want != "" { // development aid: only the runs of one scenario
+		var kept []run
+		for _, r := range runs {
+			if r.Scenario == want {
+				kept = append(kept, r)
+			}
+		}
+		runs = kept
+	}
 	pkgsNormal, pkgsRace := map[string]bool{}, map[string]bool{}
 	for _, r := range runs {
 		if r.Race {
